@@ -70,8 +70,9 @@ Theorem C12_snapshot_while_paused_is_constant :
 Proof. exact sw_snapshot_paused_const. Qed.
 Print Assumptions C12_snapshot_while_paused_is_constant.
 
-(* Information requests: exactly one response, tagged with the loop the unit is in, and no state
-   change at all. *)
+(* Information requests: one response, tagged with the loop the unit is in (none in the synchronous
+   wait after a zero-grace kill and after the end, where requests are not read), and no state change
+   at all. *)
 Theorem C12_info_once :
   forall tbl cfg s,
   ucore tbl cfg s (AReq RGetInfo) =
@@ -251,14 +252,14 @@ Qed.
 
 (* "... in the orders the dispatcher can produce": a theorem about the dispatcher model
    (Model/Dispatcher.v), for every input history: the requests a unit finds in its channel from
-   the moment it is admitted (its Started handshake accepted) obey [env_ok] -- Stop / Continue
+   the moment it is registered (its Started handshake accepted) obey [env_ok] -- Stop / Continue
    alternate through the debounce on [d_paused], shutdown requests come Once then Twice. *)
 Theorem C12_dispatcher_requests_obey_env :
   forall n mf dbg h1 t h2 d1,
   Dispatcher.final_state (Dispatcher.Live (Dispatcher.init n mf dbg)) h1 = Dispatcher.Live d1 ->
   Dispatcher.r_hs (snd (Dispatcher.dstep (Dispatcher.Live d1) (Dispatcher.Started t))) = Dispatcher.HAccepted ->
   env_trace t0 (map Req (reqs_of t (Dispatcher.next_state (Dispatcher.Live d1) (Dispatcher.Started t)) h2)) = true.
-Proof. exact dispatcher_requests_obey_env_from_admission. Qed.
+Proof. exact dispatcher_requests_obey_env_from_registration. Qed.
 Print Assumptions C12_dispatcher_requests_obey_env.
 
 Example C12_dispatcher_requests_nonvacuous :
